@@ -161,6 +161,16 @@ impl Property for C07 {
         })
         .collect()
     }
+    fn extra_stage(
+        &self,
+        ctx: &mut Ctx,
+        stats: &mut crate::runner::Stats,
+    ) -> Result<Option<crate::runner::Violation>, String> {
+        if ctx.tier != Tier::Thorough {
+            return Ok(None);
+        }
+        crate::fuzzstage::fuzz_stage("C07", ctx, stats, 180, true)
+    }
     fn required_labels(&self) -> Vec<&'static str> {
         vec![
             "unusual=jsx-attr-value",
